@@ -195,6 +195,9 @@ func (c *Chain) guard(name string, f func()) (halt *Halt) {
 	return nil
 }
 
+// Guard runs an arbitrary call into the application under the same panic / CPU accounting as ABCI calls.
+func (c *Chain) Guard(name string, f func()) *Halt { return c.guard(name, f) }
+
 // CurrentCall reports the call in flight and the CPU time it has burnt so far.
 func (c *Chain) CurrentCall() (string, time.Duration) {
 	s := c.callStart.Load()
